@@ -299,7 +299,17 @@ class Gen:
     def gen_block(self, depth, callees, ctx, n=None):
         rng = self.rng
         n = n or rng.choice([1, 1, 2, 2, 3])
-        return [self.gen_stmt(depth, callees, ctx) for _ in range(n)]
+        out = []
+        for _ in range(n):
+            st = self.gen_stmt(depth, callees, ctx)
+            out.append(st)
+            if st["k"] == "ploop" and rng.random() < 0.4:
+                # a second parallel loop over the same counting variable in the same task instance
+                if rng.random() < 0.5:
+                    out.append({"k": "svc", "name": rng.choice(self.services), "ins": self.svc_params(ctx["loopvars"]), "outs": []})
+                lim = rng.choice([1, 2, 3]) if rng.random() < 0.5 else rng.choice(NUM_PATHS)
+                out.append({"k": "ploop", "var": st["var"], "limit": lim, "call": self.call(callees, ctx["loopvars"] + [st["var"]])})
+        return out
 
     def call(self, callees, loopvars):
         t = self.rng.choice(callees)
